@@ -111,7 +111,7 @@ CHECKS = {
         "assumptions": ["golang.org/x/crypto keyring is the underlying agent", "the purge order documented in the code comments (orphans against the reported list, then expiry) is the contract"],
         "subchecks": [
             R("TestC07Purge", 400, 1500, qs=2),
-            R("TestC07Lapse", 6, 30, qs=8, ts=16),
+            R("TestC07Lapse", 6, 60, qs=8, ts=16, thorough_extra={"timeout": 1200}),
         ],
     },
     "C08": {
